@@ -193,6 +193,10 @@ std::vector<double> probeTimes(Rng &r, const Model &m, int extra)
         ts.push_back(b);
         ts.push_back(std::nextafter(b, INFINITY));
         ts.push_back(std::nextafter(b, -INFINITY));
+        // a little off the breakpoint (nanoseconds to microseconds): neither "exactly on it" nor "well inside"
+        double off = std::pow(10.0, -(double)r.range(6, 13)) * (r.coin() ? 1 : -1);
+        ts.push_back(b + off);
+        ts.push_back(b - 0.37 * off);
     }
     for (int q = 0; q < extra; ++q)
     {
